@@ -77,6 +77,70 @@ def write_7z(files, method: str = "lzma2", declared=None, folder_declared=None) 
     return _assemble(packed, header)
 
 
+def _bitvec(bits) -> bytes:
+    out = bytearray((len(bits) + 7) // 8)
+    for i, b in enumerate(bits):
+        if b:
+            out[i // 8] |= 0x80 >> (i % 8)
+    return bytes(out)
+
+
+def _coder(method: str, blob: bytes):
+    if method == "copy":
+        return blob, bytes([0x01]) + b"\x00"
+    if method == "lzma":
+        props, packed = lzma1_raw(blob)
+        return packed, bytes([0x23]) + b"\x03\x01\x01" + num(len(props)) + props
+    if method == "lzma2":
+        props, packed = lzma2_raw(blob)
+        return packed, bytes([0x21]) + b"\x21" + num(len(props)) + props
+    raise ValueError(method)
+
+
+def write_7z_layout(entries, method: str = "lzma2") -> bytes:
+    """entries, in archive order: (name, data, kind, folder)
+         kind "reg": data bytes, folder >= 1 (entries of one folder are stored solid, folders in increasing order)
+         kind "empty" / "anti": an entry without data stream flagged as empty FILE (anti: also flagged anti)
+         kind "dir": an entry without data stream that is not an empty file
+    Several folders = a non-solid archive: one pack stream and one coder per folder."""
+    folders = sorted({f for _, _, k, f in entries if k == "reg"})
+    packs, coders, fsizes, counts, subsizes = [], [], [], [], []
+    for f in folders:
+        datas = [d for _, d, k, ff in entries if k == "reg" and ff == f]
+        packed, coder = _coder(method, b"".join(datas))
+        packs.append(packed)
+        coders.append(coder)
+        fsizes.append(sum(len(d) for d in datas))
+        counts.append(len(datas))
+        subsizes += [len(d) for d in datas[:-1]]
+    h = b"\x01"
+    if folders:
+        h += b"\x04"
+        h += b"\x06" + num(0) + num(len(packs)) + b"\x09" + b"".join(num(len(p)) for p in packs) + b"\x00"
+        h += b"\x07\x0b" + num(len(folders)) + b"\x00" + b"".join(num(1) + c for c in coders)
+        h += b"\x0c" + b"".join(num(n) for n in fsizes) + b"\x00"
+        h += b"\x08\x0d" + b"".join(num(c) for c in counts)
+        if subsizes:
+            h += b"\x09" + b"".join(num(n) for n in subsizes)
+        h += b"\x00" + b"\x00"
+    n = len(entries)
+    h += b"\x05" + num(n)
+    streamless = [k != "reg" for _, _, k, _ in entries]
+    if any(streamless):
+        vec = _bitvec(streamless)
+        h += b"\x0e" + num(len(vec)) + vec
+        kinds = [k for _, _, k, _ in entries if k != "reg"]
+        if any(k in ("empty", "anti") for k in kinds):
+            vec = _bitvec([k in ("empty", "anti") for k in kinds])
+            h += b"\x0f" + num(len(vec)) + vec
+        if any(k == "anti" for k in kinds):
+            vec = _bitvec([k == "anti" for k in kinds])
+            h += b"\x10" + num(len(vec)) + vec
+    names = b"\x00" + b"".join(nm.encode("utf-16-le") + b"\x00\x00" for nm, _, _, _ in entries)
+    h += b"\x11" + num(len(names)) + names + b"\x00" + b"\x00"
+    return _assemble(b"".join(packs), h)
+
+
 def _assemble(body: bytes, header: bytes) -> bytes:
     start = struct.pack("<QQI", len(body), len(header), zlib.crc32(header) & 0xFFFFFFFF)
     return MAGIC + b"\x00\x04" + struct.pack("<I", zlib.crc32(start) & 0xFFFFFFFF) + start + body + header
